@@ -135,13 +135,17 @@ def run(ctx):
     for (fam_, scheme, els), o in out[:2] + out[6000:6002]:
         res.add_sample({"family": fam_, "model": scheme, "kernel": list(els),
                         "uniform/opt1/opt2/exact_optimum": o["obs"]})
-    res.evaluations = res.states
     res.extra = {"family_kernels_per_scheme": len(fam), "worst_gap_over_optimum": worst_gap,
                  "largest_undercut": worst_under}
+    # clauses (1) and (2) for real instructions on shipped models (kernels of C01 part b)
+    from mc.checks import c01_shipped
+    res.merge(c01_shipped.run_part_c02(ctx))
+    res.evaluations = res.states
     res.rule = ("the complete 5355-kernel family of the property (7 one-cycle forms on all non-empty "
                 "subsets of 3 ports, kernels <=4; with the 7 two-cycle forms, kernels <=3 containing "
                 "one) and, for clauses 1-2, all kernels <=2 over the multi-micro-op/alternative forms "
-                "of C01; compared with max_S confined(S)/|S|; non-trivial = optimisation changed the "
+                "of C01 and all kernels <=2 over <=40 real instructions (one per distinct micro-op list) "
+                "of shipped models (quick 5, thorough all); compared with max_S confined(S)/|S|; non-trivial = optimisation changed the "
                 "bottleneck")
     res.bounds = {"ports": 3, "family": "complete", "passes": 2}
     res.assumptions = [
@@ -153,8 +157,11 @@ def run(ctx):
 
 
 def replay(ctx, payload):
-    _setup(ctx)
     r = payload["replay"]
+    if r.get("part") == "shipped-models":
+        from mc.checks import c01_shipped
+        return c01_shipped.replay_c02(ctx, payload)
+    _setup(ctx)
     item, o = _work((r["family"], r["scheme"], tuple(r["kernel"])))
     print("uniform/opt1/opt2/exact optimum:", o["obs"])
     for b in o["bad"]:
